@@ -53,3 +53,8 @@ Definition near_closed (kl kr : Z) (r q : row) : bool :=
 
 Definition payload_local (kl kr : Z) (h : row -> list row -> Z) : Prop :=
   forall r N N', filter (near_closed kl kr r) N = filter (near_closed kl kr r) N' -> h r N = h r N'.
+
+(* several computations whose outputs can be cut at the same times (for instance: every output has
+   one row per input row) *)
+Definition same_cuts (fs : list (list row -> list row)) : Prop :=
+  forall f1 f2 I x, In f1 fs -> In f2 fs -> dsp I -> (straddled (f1 I) x <-> straddled (f2 I) x).
